@@ -221,6 +221,27 @@ fn canonical_artifact_json(a: &ProgramArtifact) -> String {
     serde_json::to_string_pretty(&v).unwrap()
 }
 
+/// Replaces every `{"id": n, "debug_name": "name"}` object of a JSON value by `"name"`.
+fn ids_to_names(v: &mut serde_json::Value) {
+    use serde_json::Value;
+    let name = match v {
+        Value::Object(m) if m.len() == 2 && m.contains_key("id") => match m.get("debug_name") {
+            Some(Value::String(s)) => Some(s.clone()),
+            _ => None,
+        },
+        _ => None,
+    };
+    if let Some(n) = name {
+        *v = Value::String(n);
+        return;
+    }
+    match v {
+        Value::Object(m) => m.values_mut().for_each(ids_to_names),
+        Value::Array(a) => a.iter_mut().for_each(ids_to_names),
+        _ => {}
+    }
+}
+
 /// `executables` of the debug info as readable lines: attribute, then the functions in order.
 fn executables_text(a: &ProgramArtifact) -> String {
     let mut s = String::new();
@@ -342,9 +363,16 @@ fn multiset_diff(a: &[String], b: &[String]) -> Vec<String> {
 }
 
 /// `Ok(description)` when the difference between the two programs is exactly the known finding:
-/// same functions in the same order, every function whose body differs lies on a call cycle, its
-/// number of gas withdrawals differs, and the libfuncs it gained or lost are gas handling, the
-/// out-of-gas panic branch or value plumbing.  `Err(reason)` otherwise.
+/// * the two programs have the same functions in the same order;
+/// * every function whose body differs gained or lost only gas handling, the out-of-gas panic branch
+///   or value plumbing, and calls the same functions (up to the out-of-gas panic helper);
+/// * the *core* of the difference is non-empty: functions whose number of gas withdrawals differs
+///   and which lie on a call cycle of the program or are const-specialisations `f{..}` (the
+///   specialised copy carries the body of `f` with or without `f`'s withdrawal; `f` itself and its
+///   cycle need not be in the program);
+/// * every other differing function reaches a core function through calls (its callee's signature
+///   gained or lost the gas implicits) and has the same number of gas withdrawals.
+/// `Err(reason)` otherwise.
 fn classify_scc(a: &Program, b: &Program) -> Result<String, String> {
     let (va, vb) = (function_views(a), function_views(b));
     let (na, nb): (Vec<&String>, Vec<&String>) = (va.iter().map(|v| &v.name).collect(), vb.iter().map(|v| &v.name).collect());
@@ -352,54 +380,71 @@ fn classify_scc(a: &Program, b: &Program) -> Result<String, String> {
         return Err(format!("the function lists differ: {:?} vs {:?}", &na[..na.len().min(8)], &nb[..nb.len().min(8)]));
     }
     let cyc = cyclic_components(&va);
-    let mut moved: BTreeMap<usize, (Vec<String>, Vec<String>)> = BTreeMap::new();
-    let mut differing = 0;
+    let idx: BTreeMap<u64, usize> = va.iter().enumerate().map(|(i, v)| (v.id, i)).collect();
+    let idxb: BTreeMap<u64, usize> = vb.iter().enumerate().map(|(i, v)| (v.id, i)).collect();
+    let mut core: BTreeMap<usize, bool> = BTreeMap::new(); // index -> withdrawal is in version a
+    let mut others: Vec<usize> = vec![];
     for (i, (fa, fb)) in va.iter().zip(vb.iter()).enumerate() {
-        let ca: BTreeSet<&String> = va.iter().filter(|v| fa.callees.contains(&v.id)).map(|v| &v.name).collect();
-        let cb: BTreeSet<&String> = vb.iter().filter(|v| fb.callees.contains(&v.id)).map(|v| &v.name).collect();
         if fa.body == fb.body {
             continue;
         }
-        differing += 1;
-        // on a call cycle itself, or a const-specialisation `f{..}` of a function that is (the
-        // specialised copy carries the body of `f`, with or without `f`'s gas withdrawal)
-        let base = fa.name.split('{').next().unwrap_or(&fa.name).to_string();
-        let label = match cyc.get(&i) {
-            Some(l) => l,
-            None => match va.iter().position(|v| v.name == base).and_then(|j| cyc.get(&j)) {
-                Some(l) if base != fa.name => l,
-                _ => return Err(format!("function {} differs and is not on a call cycle", fa.name)),
-            },
-        };
-        // callees may differ only by the out-of-gas panic helper
-        let cd: Vec<&&String> = ca.symmetric_difference(&cb).filter(|n| !n.contains("375233589013918064796019") && !n.contains("panic")).collect();
+        let ca: BTreeSet<&String> = va.iter().filter(|v| fa.callees.contains(&v.id)).map(|v| &v.name).collect();
+        let cb: BTreeSet<&String> = vb.iter().filter(|v| fb.callees.contains(&v.id)).map(|v| &v.name).collect();
+        let cd: Vec<&&String> = ca.symmetric_difference(&cb).filter(|n| !n.contains("375233589013918064796019")).collect();
         if !cd.is_empty() {
             return Err(format!("function {} calls different functions: {:?}", fa.name, cd));
-        }
-        let (wa, wb) = (fa.body.iter().filter(|n| is_gas_withdrawal(n)).count(), fb.body.iter().filter(|n| is_gas_withdrawal(n)).count());
-        if wa == wb {
-            return Err(format!("function {} differs but has the same number of gas withdrawals ({wa})", fa.name));
         }
         let other: Vec<String> = multiset_diff(&fa.body, &fb.body).into_iter().filter(|n| !gas_or_plumbing(n)).collect();
         if !other.is_empty() {
             return Err(format!("function {} differs in more than gas handling: {:?}", fa.name, &other[..other.len().min(6)]));
         }
-        let e = moved.entry(*label).or_default();
-        if wa > wb {
-            e.0.push(fa.name.clone());
+        let (wa, wb) = (fa.body.iter().filter(|n| is_gas_withdrawal(n)).count(), fb.body.iter().filter(|n| is_gas_withdrawal(n)).count());
+        if wa != wb {
+            let base = fa.name.split('{').next().unwrap_or(&fa.name);
+            let on_cycle = cyc.contains_key(&i) || va.iter().position(|v| v.name == base).map(|j| cyc.contains_key(&j)).unwrap_or(false);
+            if !(on_cycle || base != fa.name) {
+                return Err(format!("function {} has a different number of gas withdrawals and is neither on a call cycle nor a specialisation", fa.name));
+            }
+            core.insert(i, wa > wb);
         } else {
-            e.1.push(fa.name.clone());
+            others.push(i);
         }
     }
-    if differing == 0 {
-        return Err("no function body differs (only declarations / order)".into());
+    if core.is_empty() {
+        return Err("no function on a call cycle (or specialisation) with a moved gas withdrawal".into());
     }
-    let mut d = vec![];
-    for (label, (ina, inb)) in &moved {
-        let members: Vec<&String> = cyc.iter().filter(|(_, l)| *l == label).map(|(i, _)| &va[*i].name).collect();
-        d.push(format!("call cycle {:?}: gas withdrawal in {:?} vs in {:?}", members, ina, inb));
+    // every other differing function must reach the core through calls (in either version)
+    for &o in &others {
+        let mut seen = BTreeSet::new();
+        let mut stack = vec![o];
+        let mut found = false;
+        while let Some(x) = stack.pop() {
+            if !seen.insert(x) {
+                continue;
+            }
+            if core.contains_key(&x) {
+                found = true;
+                break;
+            }
+            stack.extend(va[x].callees.iter().filter_map(|c| idx.get(c).copied()));
+            stack.extend(vb[x].callees.iter().filter_map(|c| idxb.get(c).copied()));
+        }
+        if !found {
+            return Err(format!("function {} differs, has the same gas withdrawals and does not call into the differing call cycle", va[o].name));
+        }
     }
-    Ok(d.join("; "))
+    let ina: Vec<&String> = core.iter().filter(|(_, x)| **x).map(|(i, _)| &va[*i].name).collect();
+    let inb: Vec<&String> = core.iter().filter(|(_, x)| !**x).map(|(i, _)| &va[*i].name).collect();
+    let mut cycles: BTreeSet<Vec<&String>> = BTreeSet::new();
+    for i in core.keys() {
+        if let Some(l) = cyc.get(i) {
+            cycles.insert(cyc.iter().filter(|(_, m)| *m == l).map(|(k, _)| &va[*k].name).collect());
+        }
+    }
+    Ok(format!(
+        "gas withdrawal of a call cycle placed in {:?} in one compile and in {:?} in the other; call cycles visible in the program: {:?}; {} caller(s) follow with changed implicits",
+        ina, inb, cycles, others.len()
+    ))
 }
 
 // ---------------------------------------------------------------------------------------------
@@ -579,12 +624,22 @@ fn crate_entry(db: &dyn CloneableDatabase, inputs: &[CrateInput], art: &mut Arti
             compile_prepared_db(db, crate_ids, config).map(|pd| {
                 let raw = pd.program.clone();
                 let replacer = CanonicalReplacer::from_program(&raw);
-                let mut ann = Annotations::default();
-                ann.extend(Annotations::from(pd.debug_info.statements_locations.extract_statements_functions(db)));
-                ann.extend(Annotations::from(pd.debug_info.statements_locations.extract_statements_source_code_locations(db)));
-                let fdi = Annotations::from(pd.debug_info.functions_info.clone().replace_function_ids(&replacer).extract_serializable_debug_info(db));
-                let tn = Annotations::from(SerializableTypeNamesDebugInfo::extract_type_names(db, &raw).replace_type_ids(&replacer));
-                (raw, serde_json::to_string_pretty(&ann).unwrap(), serde_json::to_string_pretty(&fdi).unwrap(), serde_json::to_string_pretty(&tn).unwrap())
+                // each extraction on its own: a panic of one (recorded as its text) must not hide the others
+                let part = |f: &mut dyn FnMut() -> Annotations| -> String {
+                    match catch(AssertUnwindSafe(|| f())) {
+                        Ok(a) => serde_json::to_string_pretty(&a).unwrap(),
+                        Err(p) => format!("<panic: {p}>"),
+                    }
+                };
+                let ann = part(&mut || {
+                    let mut ann = Annotations::default();
+                    ann.extend(Annotations::from(pd.debug_info.statements_locations.extract_statements_functions(db)));
+                    ann.extend(Annotations::from(pd.debug_info.statements_locations.extract_statements_source_code_locations(db)));
+                    ann
+                });
+                let fdi = part(&mut || Annotations::from(pd.debug_info.functions_info.clone().replace_function_ids(&replacer).extract_serializable_debug_info(db)));
+                let tn = part(&mut || Annotations::from(SerializableTypeNamesDebugInfo::extract_type_names(db, &raw).replace_type_ids(&replacer)));
+                (raw, ann, fdi, tn)
             })
         }))
     };
@@ -695,7 +750,11 @@ fn tests_entry(db: &dyn CloneableDatabase, inputs: &[CrateInput], starknet: bool
                     .iter()
                     .map(|(f, c)| format!("{}: {:?}", f.debug_name.as_ref().map(|s| s.to_string()).unwrap_or_else(|| "<unnamed>".into()), c.iter().collect::<Vec<_>>()))
                     .collect();
-                let contracts = serde_json::to_string_pretty(&tc.metadata.contracts_info.iter().collect::<Vec<_>>()).unwrap();
+                // ContractInfo names functions by Sierra ids {id, debug_name}: the raw number is the
+                // interned id (allowed to differ), the debug name is what is compared
+                let mut cv = serde_json::to_value(tc.metadata.contracts_info.iter().collect::<Vec<_>>()).unwrap();
+                ids_to_names(&mut cv);
+                let contracts = serde_json::to_string_pretty(&cv).unwrap();
                 (named, costs.join("\n"), contracts, tc.sierra_program)
             })
         }))
@@ -1071,7 +1130,7 @@ fn main() {
             (execs, matrix(3, 16, &other_a)),
             (testsp, matrix(2, 16, &other_a)),
             (diagp, matrix(1, 24, &other_a)),
-            (bug_samples, choose(matrix(1, 30, &other_a), 10, &mut rng)),
+            (bug_samples, choose(matrix(1, 30, &other_a), 24, &mut rng)),
             (hash_chain, choose(matrix(1, 40, &other_b), 12, &mut rng)),
             (fib_array, choose(matrix(1, 40, &other_b), 12, &mut rng)),
             (starknet, choose(matrix(1, 24, &other_b), 20, &mut rng)),
@@ -1083,6 +1142,7 @@ fn main() {
             (execs, choose(matrix(1, 10, &other_a), 8, &mut rng)),
             (testsp, choose(matrix(1, 10, &other_a), 6, &mut rng)),
             (diagp, choose(matrix(1, 10, &other_a), 4, &mut rng)),
+            (bug_samples, choose(matrix(1, 24, &other_a), 4, &mut rng)),
             (starknet, choose(matrix(1, 10, &other_b), 3, &mut rng)),
         ]
     };
